@@ -107,6 +107,11 @@ def gen_pair(rng):
         s1 = off + rng.integers(0, 40, (n1, d)) * step
         s2 = off + rng.integers(0, 40, (n2, d)) * step
         lattice = "fine"
+    elif rng.random() < 0.12:
+        # time stamps: epoch seconds (about 1.7e9) at whole-second resolution, possibly next to an ordinary feature
+        s1 = np.column_stack([1.7e9 + rng.integers(0, 600, n1)] + [rng.normal(size=n1) for _ in range(d - 1)]).astype(float)
+        s2 = np.column_stack([1.7e9 + rng.integers(0, 600, n2)] + [rng.normal(size=n2) for _ in range(d - 1)]).astype(float)
+        lattice = "timestamps"
     cross = False
     if rng.random() < 0.35:
         m = max(1, min(n1, n2) // 2)
@@ -130,6 +135,8 @@ def run_pair(case, ctx):
     base = dict(s1=s1.tolist(), s2=s2.tolist(), k=k)
     if lattice == "fine":
         ctx.count("pairs_large_offset_fine_grid")
+    if lattice == "timestamps":
+        ctx.count("pairs_with_a_timestamp_feature")
     p = NNSpacePartitioner(k)
     p.build(s1.copy(), s2.copy())
     if "literal" not in case and case["seed"][-1] % 3 == 0:
